@@ -135,10 +135,13 @@ def build(ctx):
                     dels[f] = max(dels.get(f, 0), max(ok_lines))
         for field in memo_fields:
             ok = field in dels and dels[field] >= barrier
-            ctx.ground(f"crystal.Crystal.{name}/mutator.invalidates/{field}", ok, tag="F",
-                       clause=f"{name} assigns {sorted(core_w)}; it must delete {field} after its last core store / memo-filling call (line {barrier})",
-                       detail={"deleted_at": dels.get(field), "barrier_line": barrier}, witness={"mutator": name, "stale_memo": field,
-                       "history": f"[{[m for m, f in fillers.items() if f == field][0]}(), {name}(...), {[m for m, f in fillers.items() if f == field][0]}()]"}, fn=fn(name))
+            filler = [m for m, f in fillers.items() if f == field][0]
+            # not recognising the deletion in the source is not evidence of a stale memo (it may be spelled differently): the clause is then
+            # decided on the real code by histories [filler, mutator, filler] compared with a fresh crystal
+            ctx.pattern(f"crystal.Crystal.{name}/mutator.invalidates/{field}", ok,
+                        clause=f"{name} assigns {sorted(core_w)}; it must delete {field} after its last core store / memo-filling call (line {barrier})",
+                        detail={"deleted_at": dels.get(field), "barrier_line": barrier},
+                        fallback=(lambda name=name, field=field, filler=filler: dynamic_invalidation(name, field, filler)), fn=fn(name))
         # stored CIF dictionary
         comps = {p[5:] for p in core_w}
         # the drop must be unconditional: a top-level statement of the method body, after the last core store
@@ -222,7 +225,13 @@ def _core(c):
             np.round(c.asymmetric_unit.positions, 9).tolist(), np.asarray(c.asymmetric_unit.atomic_numbers).tolist(), [str(x) for x in c.asymmetric_unit.labels])
 
 
-def bounded_histories(ctx):
+_KIT = {}
+
+
+def history_kit():
+    """Real crystals, queries, state-changing operations and the history runner shared by the bounded stand-in and the run-time fall-backs."""
+    if _KIT:
+        return _KIT
     from chmpy.crystal import Crystal
     from chmpy.tests import TEST_FILES
     import io, contextlib
@@ -263,13 +272,7 @@ def bounded_histories(ctx):
     def fresh_like(c):
         return Crystal(copy.deepcopy(c.unit_cell), copy.deepcopy(c.space_group), copy.deepcopy(c.asymmetric_unit))
 
-    rng = np.random.default_rng(ctx.seed + 14)
     qnames = list(QUERIES)
-    mnames = list(MUTATORS)
-    ops_all = qnames + mnames + ["deepcopy"]
-    fails, evals, distinct = [], 0, set()
-    maxlen = 3 if ctx.tier == "quick" else 4
-    budget = 60 if ctx.tier == "quick" else 1500
 
     def run_history(sname, hist):
         c = copy.deepcopy(structures[sname])
@@ -292,6 +295,43 @@ def bounded_histories(ctx):
             if a != b:
                 return {"step": len(hist), "op": q, "what": f"derived answer '{q}' differs from a freshly constructed crystal with the same cell, space group and asymmetric unit"}
         return None
+    _KIT.update(QUERIES=QUERIES, MUTATORS=MUTATORS, structures=structures, run_history=run_history)
+    return _KIT
+
+
+def dynamic_invalidation(mutator, field, filler):
+    """Run-time fall-back of mutator.invalidates/<field> when the deletion is not recognised in the source: histories
+    [filler, mutator, filler, ...] on real crystals, every derived answer compared with a freshly constructed crystal."""
+    import io, contextlib
+    kit = history_kit()
+    muts = [m for m in kit["MUTATORS"] if m.split("(")[0] == mutator]
+    if not muts or filler not in kit["QUERIES"]:
+        return {"input": {"mutator": mutator, "memo": field}, "observed": "no run-time harness knows how to call this operation; deletion of the memo not recognised in the source"}
+    with contextlib.redirect_stdout(io.StringIO()):
+        for sname in kit["structures"]:
+            for m in muts:
+                for hist in ((filler, m, filler), (filler, m, m, filler), (filler, "unit_cell_molecules", m, filler), (filler, "deepcopy", m, filler)) + \
+                        tuple((filler, m2, filler, m, filler) for m2 in muts):
+                    try:
+                        bad = kit["run_history"](sname, hist)
+                    except Exception as e:  # noqa
+                        bad = {"what": "exception " + repr(e)[:200]}
+                    if bad:
+                        return {"input": {"structure": sname, "history": list(hist)}, "observed": bad}
+    return None
+
+
+def bounded_histories(ctx):
+    import io, contextlib
+    kit = history_kit()
+    QUERIES, MUTATORS, structures, run_history = kit["QUERIES"], kit["MUTATORS"], kit["structures"], kit["run_history"]
+    rng = np.random.default_rng(ctx.seed + 14)
+    qnames = list(QUERIES)
+    mnames = list(MUTATORS)
+    ops_all = qnames + mnames + ["deepcopy"]
+    fails, evals, distinct = [], 0, set()
+    maxlen = 3 if ctx.tier == "quick" else 4
+    budget = 60 if ctx.tier == "quick" else 1500
     histories = []
     # systematic: every (query, mutator, query) triple on the trigonal structure, then random ones
     for q1 in qnames:
